@@ -170,6 +170,31 @@ pub(crate) struct GuardedDbFields {
     read_sampling_seed: u64,
 }
 
+#[cfg(feature = "verif")]
+impl GuardedDbFields {
+    /// Verification hook: build the guarded fields around a version set without opening a database.
+    pub(crate) fn new_for_verif(version_set: VersionSet) -> Self {
+        GuardedDbFields {
+            curr_wal_file_number: 0,
+            background_compaction_scheduled: false,
+            maybe_bad_database_state: None,
+            maybe_manual_compaction: None,
+            writer_queue: VecDeque::new(),
+            maybe_immutable_memtable: None,
+            compaction_stats: Default::default(),
+            version_set,
+            tables_in_use: HashSet::new(),
+            snapshots: SnapshotList::new(),
+            read_sampling_seed: 0,
+        }
+    }
+
+    /// Verification hook: forget the open manifest so the next `log_and_apply` starts a new one.
+    pub(crate) fn version_set_drop_manifest_for_verif(&mut self) {
+        self.version_set.drop_manifest_for_verif();
+    }
+}
+
 /// The primary database object that exposes the public API.
 pub struct DB {
     /// Options for configuring the operation of the database.
